@@ -5,6 +5,7 @@ From SudachiVerif Require Import Model.Lattice Model.LatticeM Model.BuildLattice
      Proofs.LatticeProofs Proofs.LatticeMProofs Proofs.BuildLatticeProofs Proofs.PanicSitesClassified Proofs.TotalitySimple.
 From SudachiVerif Require Model.Oov.
 From SudachiVerif Require Generated.Limits Generated.PanicSites Generated.ConnFacts.
+From SudachiVerif Require Import Proofs.SiteCover.
 Open Scope Z_scope.
 
 (* With a fallback OOV provider (one that yields a word [p, e), p < e <= n, whenever nothing else was created at p)
@@ -55,7 +56,9 @@ Proof. vm_compute. repeat split; intro; discriminate. Qed.
 (* with i16 costs (|c| <= 32768) the bound of C03_no_overflow_if_bounded holds up to 32766 characters *)
 Lemma C03_fact_bound_i16 : (32766 + 1) * (32768 + 32768) < MAX32.
 Proof. vm_compute. reflexivity. Qed.
-Lemma C03_fact_panic_sites : Generated.PanicSites.sites = classified.
+(* one-directional: per file and kind at most the classified count (a site that disappears needs no new justification, a
+   new one re-opens the obligation) *)
+Lemma C03_fact_panic_sites : counts_le Generated.PanicSites.sites classified = true.
 Proof. vm_compute. reflexivity. Qed.
 Lemma C03_fact_conn_index_in_range :
   forall l r nl nr, (l < nl)%N -> (r < nr)%N -> (Generated.ConnFacts.conn_index l r nl nr < nl * nr)%N.
@@ -102,9 +105,9 @@ Theorem C03_lattice_no_panic_release :
 Proof. exact lattice_no_panic_release. Qed.
 Print Assumptions C03_lattice_no_panic_release.
 
-(* the index expressions / unwraps / casts / usize subtractions of lattice.rs, per function and in source order, are the
-   ones the model was written for *)
-Lemma C03_fact_lattice_sites : Generated.LatticeSites.lattice_fns = lattice_classified.
+(* the index expressions / unwraps / casts / usize subtractions of lattice.rs, per function, are among the ones the model was
+   written for (keys of gen/sitekeys.py, multiset inclusion per function: Proofs/SiteCover.v) *)
+Lemma C03_fact_lattice_sites : covered Generated.LatticeSites.lattice_site_keys lattice_keys_classified = true.
 Proof. vm_compute. reflexivity. Qed.
 (* ... and they are all of them: the per-function lists add up to the inventory counts of Generated/PanicSites.v *)
 Lemma C03_fact_lattice_sites_total :
@@ -160,8 +163,7 @@ Proof. exact (lattice_path_accessors_ok the_cfg (proj1 C03_fact_buffer_cfg) (pro
 Print Assumptions C03_accessors_no_index_panic.
 
 Lemma C03_fact_accessor_sites :
-  Generated.AccessorSites.buffer_accessor_fns = buffer_accessors_classified
-  /\ Generated.AccessorSites.resolve_best_path_sites = resolve_best_path_classified
+  covered Generated.AccessorSites.accessor_site_keys accessor_keys_classified = true
   /\ Generated.AccessorSites.resolve_best_path_calls = resolve_best_path_calls_classified
   /\ Generated.AccessorSites.morpheme_accessors = morpheme_accessors_classified.
 Proof. vm_compute. repeat split; reflexivity. Qed.
@@ -273,5 +275,5 @@ Theorem C03_build_writes_in_range :
 Proof. exact (conj build_bow_writes_in_range c2b_scan_sorted). Qed.
 Print Assumptions C03_build_writes_in_range.
 
-Lemma C03_fact_more_sites : Generated.MoreSites.more_fns = more_fns_classified.
+Lemma C03_fact_more_sites : covered Generated.MoreSites.more_site_keys more_keys_classified = true.
 Proof. vm_compute. reflexivity. Qed.
